@@ -126,6 +126,12 @@ def runOp1 (op : String) (a : List String) : Option String :=
   | "show_pair" => some (hex (showPair (mkPair (Card.ofCode (n 0)) (Card.ofCode (n 1)))))
   | "pair_index" =>
     some (showRes (fun c => toString c.code) ((mkPair (Card.ofCode (n 0)) (Card.ofCode (n 1))).index (n 2)))
+  | "cmp7" =>
+    let cs := a.map (fun t => Card.ofCode t.toNat!)
+    -- `MadeHand` derives Eq/Ord on the index and implements PartialOrd through `power_index()`
+    (match eval7 (cs.take 7), eval7 (cs.drop 7) with
+     | .ok i, .ok j => some s!"ok cmp={cmpStr (i < j) (i == j)} partial={cmpStr (i < j) (i == j)} eq={if i == j then 1 else 0} lt={if i < j then 1 else 0}"
+     | _, _ => some "panic")
   | "eval7_block" =>
     some (showBlock (blockFold (n 0) (n 1) (n 2) fun cs =>
       match eval7 (cs.map Card.ofCode) with
@@ -185,6 +191,12 @@ def specOp1 (op : String) (a : List String) : Option String :=
       | some x, some y => if x == y then none else some s!"=ok {52 * min x y + max x y}"
       | _, _ => none
     | _ => none
+  | "cmp7" =>
+    -- the hand whose best five cards are stronger under the rule book compares as smaller; equal strength = tie
+    let cs := a.map (fun t => (t.toNat! / 4, t.toNat! % 4))
+    let sa := Spec.bestStrength (cs.take 7)
+    let sb := Spec.bestStrength (cs.drop 7)
+    some s!"=ok cmp={cmpStr (sa > sb) (sa == sb)} partial={cmpStr (sa > sb) (sa == sb)} eq={if sa == sb then 1 else 0} lt={if sa > sb then 1 else 0}"
   | "eval7_block" =>
     some ("=" ++ showBlock (blockFold (n 0) (n 1) (n 2) fun cs =>
       let b := Spec.best (cs.map fun c => (c / 4, c % 4))
